@@ -393,7 +393,13 @@ def replay(harness, inp):
         k = (rot % 360) // 90
         w, h = x1 - x0, y1 - y0
         W, H = (w, h) if k in (0, 2) else (h, w)
-        ok = tuple(out["ctm"][:4]) == ROT[90 * k] and tuple(out["bbox"]) == (0, 0, W, H)
+        a, b, c, d, e, f = out["ctm"]
+        corners = [(a * px + c * py + e, b * px + d * py + f) for px in (x0, x1) for py in (y0, y1)]        # where the page matrix puts the MediaBox
+        hull = (min(p[0] for p in corners), min(p[1] for p in corners), max(p[0] for p in corners), max(p[1] for p in corners))
+        near = lambda u, v: abs(u - v) <= 1e-9 * max(1.0, abs(u), abs(v))
+        ok = tuple(out["ctm"][:4]) == ROT[90 * k] and tuple(out["bbox"]) == (0, 0, W, H) and all(near(u, v) for u, v in zip(hull, (0, 0, W, H)))
+        if ok is False and tuple(out["ctm"][:4]) == ROT[90 * k] and tuple(out["bbox"]) == (0, 0, W, H):
+            return "MediaBox %r Rotate %d: the page matrix %r maps the MediaBox onto %r, not onto (0, 0, %r, %r)" % ((x0, y0, x1, y1), rot, out["ctm"], hull, W, H)
         return None if ok else "MediaBox %r Rotate %d: ctm %r, LTPage.bbox %r; expected rotation %r and bbox (0,0,%r,%r)" % ((x0, y0, x1, y1), rot, out["ctm"], out["bbox"], ROT[90 * k], W, H)
     if harness == "H4_boxes":
         from pdfminer.psparser import LIT
